@@ -428,6 +428,10 @@ func (fc *funcContext) translateExpr(expr ast.Expr) *expression {
 						// An arithmetic right shift by the width or more fills with the sign bit.
 						return fc.fixNumber(fc.formatParenExpr("%e >> 31", e.X), basic)
 					}
+					if i >= 32 && analysis.HasSideEffect(e.X, fc.pkgCtx.Info.Info) {
+						// The result is 0, but the operand still has to be evaluated.
+						return fc.formatExpr("(%e, 0)", e.X)
+					}
 					if i >= 32 {
 						return fc.formatExpr("0")
 					}
@@ -437,6 +441,12 @@ func (fc *funcContext) translateExpr(expr ast.Expr) *expression {
 					return fc.fixNumber(fc.formatParenExpr("%e >> $min(%f, 31)", e.X, e.Y), basic)
 				}
 				y := fc.newLocalVariable("y")
+				if analysis.HasSideEffect(e.X, fc.pkgCtx.Info.Info) {
+					// The shifted operand must be evaluated (once, and before the count)
+					// even when the count is 32 or more and the result is 0.
+					x := fc.newLocalVariable("x")
+					return fc.fixNumber(fc.formatExpr("(%s = %e, %s = %f, %s < 32 ? (%s %s %s) : 0)", x, e.X, y, e.Y, y, x, op, y), basic)
+				}
 				return fc.fixNumber(fc.formatExpr("(%s = %f, %s < 32 ? (%e %s %s) : 0)", y, e.Y, y, e.X, op, y), basic)
 			case token.AND, token.OR:
 				if isUnsigned(basic) {
